@@ -204,6 +204,38 @@ def r03c(ctx):
         ctx.instance("R03c", f"{g.file}:{g.ident}", "folder writer iterates the whole part table and skips None", ok=okn and okl, line=d.lineno)
         if not (okn and okl):
             ctx.report("R03c", g, d, "dump(…) unguarded or not over all parts", "folder save does not skip deleted parts / does not cover the part table")
+    # the only reason not to write a part is that it was deleted: neither writer filters by name (a guard on the part's name — a traversal check on '..', an
+    # extension list — silently leaves legal members out of the saved package while the manifest still lists them)
+    from ..paths import is_none_test
+    for fn_, writes in ((f, [w for w in ws if any(l is else_loop for l in enclosing_loops(w))]), (g, dumps)):
+        for w in writes:
+            lp = enclosing_loops(w)[0] if enclosing_loops(w) else None
+            if lp is None:
+                continue
+            namevars = {x.id for x in ast.walk(lp.target) if isinstance(x, ast.Name)}
+            extra = [t for t, _pol in structural_guards(w, stop=lp) if not any(is_none_test(t, nm) is not None for nm in
+                                                                               {x.id for x in ast.walk(t) if isinstance(x, ast.Name)}) and
+                     {x.id for x in ast.walk(t) if isinstance(x, ast.Name)} & namevars]
+            conts = [j for j in ast.walk(lp) if isinstance(j, ast.Continue) for t, _pol in structural_guards(j, stop=lp)
+                     if {x.id for x in ast.walk(t) if isinstance(x, ast.Name)} & {x.id for x in ast.walk(lp.target) if isinstance(x, ast.Name)} and
+                     not any(is_none_test(t, nm) is not None for nm in {x.id for x in ast.walk(t) if isinstance(x, ast.Name)})]
+            okf = not extra and not conts
+            ctx.instance("R03c", f"{fn_.file}:{fn_.ident}", f"`{norm(w, 30)}` is not filtered by the part's name", ok=okf, nontrivial=True, line=w.lineno)
+            if not okf:
+                t0 = extra[0] if extra else conts[0]
+                ctx.report("R03c", fn_, t0 if not isinstance(t0, ast.Continue) else t0, f"{fn_.name} filters parts by name",
+                           f"{fn_.name} does not write every live part: `{norm(t0, 50)}` leaves members out of the saved package for a reason other than deletion")
+    # … nor does the helper that writes one file of the folder: every normal path through it creates the directory or writes the bytes
+    for nd in [n for n in ast.walk(g.node) if isinstance(n, ast.FunctionDef) and n is not g.node]:
+        rets = [r for r in ast.walk(nd) if isinstance(r, (ast.Return, ast.Raise))]
+        wcalls = [c for c in ast.walk(nd) if isinstance(c, ast.Call) and call_name(c) in ("write_bytes", "mkdir", "write", "write_text")]
+        okd = not rets and bool(wcalls)
+        ctx.instance("R03c", f"{g.file}:{g.ident}.{nd.name}", "the per-file helper writes on every path (no early return)", ok=okd, nontrivial=True, line=nd.lineno)
+        if not okd:
+            r0 = rets[0] if rets else nd
+            ctx.report("R03c", g, r0, f"{nd.name}: {norm(r0, 40)}",
+                       f"the folder writer's helper {nd.name}() can leave without writing (`{norm(r0, 40)}`): the part is missing from the saved folder although it is in memory "
+                       f"and listed in the manifest")
 
 
 def r03d(ctx):
@@ -563,6 +595,40 @@ def r03j(ctx):
         raise AnalysisError("R03j: no bulk loader of the part table found")
 
 
+def r03l(ctx):
+    """The two tables of document types are one table read both ways.
+
+    A package is recognised by its mimetype: the readers accept a document whose mimetype is a key of ODF_MIMETYPES (the folder reader
+    silently turns an unknown type into ODF Text, the zip reader refuses it), the template and extension logic goes through ODF_EXTENSIONS.
+    "Reopening reports the same mimetype" needs every type the library can write to be known when it reads it back.  Rule: neither dict
+    display has a duplicate key (the later entry silently replaces the earlier one), and the two tables are inverse of each other.
+    """
+    repo = ctx.repo
+    ctx.rule("R03l", "ODF_EXTENSIONS and ODF_MIMETYPES have no duplicate keys and are inverse of each other", floor=2)
+    m = repo.module("const")
+    tabs = {}
+    for nm in ("ODF_EXTENSIONS", "ODF_MIMETYPES"):
+        node = m.assigns.get(nm)
+        if not isinstance(node, ast.Dict):
+            raise AnalysisError(f"R03l: {nm} is not a dict display")
+        keys = [repo.fold(k, m) for k in node.keys]
+        dups = sorted({str(k) for k in keys if keys.count(k) > 1})
+        tabs[nm] = (node, dict(zip(keys, [repo.fold(v, m) for v in node.values])))
+        ctx.instance("R03l", f"{m.relpath}:{nm}", f"{len(keys)} keys, no duplicate", ok=not dups, nontrivial=True, line=node.lineno)
+        if dups:
+            ctx.report("R03l", m, node, f"{nm}: duplicate key {dups}",
+                       f"{nm} names the key {dups} twice: the later entry replaces the earlier one and another entry has vanished from the table — a document of that type is no longer "
+                       f"recognised when it is read back (the folder reader turns it into ODF Text)")
+    ext, mim = tabs["ODF_EXTENSIONS"][1], tabs["ODF_MIMETYPES"][1]
+    inv = {v: k for k, v in ext.items()}
+    ok = inv == mim
+    ctx.instance("R03l", f"{m.relpath}:ODF_MIMETYPES", "mimetype → extension is the inverse of extension → mimetype", ok=ok, nontrivial=True, line=tabs["ODF_MIMETYPES"][0].lineno)
+    if not ok:
+        diff = sorted(str(k) for k in set(inv) ^ set(mim)) or sorted(str(k) for k in inv if inv[k] != mim.get(k))
+        ctx.report("R03l", m, tabs["ODF_MIMETYPES"][0], f"tables disagree on {diff[:3]}",
+                   f"ODF_EXTENSIONS and ODF_MIMETYPES disagree on {diff[:3]}: a type the library writes (or derives from a template) is unknown to the readers, or maps to another extension")
+
+
 def run(ctx):
     r03a(ctx)
     r03b(ctx)
@@ -574,6 +640,7 @@ def run(ctx):
     r03h(ctx)
     r03i(ctx)
     r03j(ctx)
+    r03l(ctx)
     # "reopen" is half of the property: a parser that drops blank text, comments or PIs loses content on the way back (rule shared with C11)
     from .c11 import r11de, r11h
     r11h(ctx)
@@ -597,6 +664,13 @@ SEEDS = [
     Seed("_read_zip iterates the info list", "neutral", _CT,
          "                for name in zf.namelist():\n                    upath = normalize_path(name)\n                    self.__parts[upath] = zf.read(name)\n",
          "                for info in zf.infolist():\n                    upath = normalize_path(info.filename)\n                    self.__parts[upath] = zf.read(info)\n"),
+    Seed("folder writer refuses names containing two dots", "fault", _CT,
+         "        def dump(part_path: str, content: bytes) -> None:\n            if part_path.endswith(\"/\"):  # folder",
+         "        def dump(part_path: str, content: bytes) -> None:\n            if part_path.startswith(\"/\") or \"..\" in part_path:\n                return\n            if part_path.endswith(\"/\"):  # folder", "R03c"),
+    Seed("zip writer skips backup-looking names", "fault", _CT,
+         "                data = parts[path]\n                if data is None:\n                    # Deleted\n                    continue\n                filezip.writestr(path, data)",
+         "                data = parts[path]\n                if data is None or path.endswith(\"~\"):\n                    continue\n                filezip.writestr(path, data)", "R03c"),
+    Seed("ODF_MIMETYPES names one key twice and loses text-master", "fault", "src/odfdo/const.py", '    ODF_MASTER: "odm",\n', '    ODF_WEB: "odm",\n', "R03l"),
     Seed("Container.save pre-loads only when the table looks short", "fault", _CT,
          "        for path in self.parts:\n            if path not in parts:\n                self.get_part(path)\n",
          "        names = self.parts\n        if len(parts) < len(names):\n            for path in names:\n                if path not in parts:\n                    self.get_part(path)\n", "R03a"),
